@@ -192,7 +192,8 @@ impl<A: SemApi> SemInner<A> {
         self.slots.regs(&mut regs);
         let sem = &self.sem;
         let slots = &self.slots;
-        self.view = inspect_and_check(ctx, Shape::List, regs, &mut |v| sem.inspect(v), &mut |r| slots.node_info(r.slot as usize));
+        let fair = self.fair;
+        self.view = inspect_and_check(ctx, Shape::List, regs, &mut |v| sem.inspect(v), &mut |r| slots.node_info(r.slot as usize), &|_, i| i.state == 1 || (i.state == 2 && fair));
         // C05 conservation
         if let Some(p) = call(ctx, "permits", 0, 0, || sem.permits()) {
             let m = self.model;
